@@ -264,9 +264,33 @@ def run(prog, R):
                 if sel:
                     mp[SKn[sel[-1][1]]] = r[2][0]
         R.ob("C10.4-booleans", "true/false keep their truth value", mp == {"TRUE_KW": ("c", "bool", 1), "FALSE_KW": ("c", "bool", 0)}, lk.at, f"{ {k: show(v) for k, v in mp.items()} }")
-    bs = prog.body("oq3_semantics::asg::BitStringLiteral::to_texpr::{closure#0}")
-    if bs:
-        consts = sorted(set(const_of(op) for bi, si, s_ in bs.stmts_with_pos() if s_["k"] == "assign" for op in operands_of_rv(s_["rv"]) if op.get("k") == "const" and op.get("ty") == "char"))
-        R.ob("C10.4-bitstring-width", "width counts exactly '0' and '1'", consts == [ord("0"), ord("1")], bs.at, f"{[chr(c) for c in consts]}")
+    # the width of a bit-string literal is the number of its '0'/'1' characters: the width term of to_texpr is
+    # count(filter(chars(value), P)) and P, evaluated on ASCII, is true exactly for '0' and '1'
+    bt = prog.body("oq3_semantics::asg::BitStringLiteral::to_texpr")
+    if bt:
+        from sym import term_contains_all
+        import scanners as _sc
+        okw, detw = False, "no returning path"
+        for p_ in SymExec(prog, bt).paths():
+            if "__diverged__" in p_.env:
+                continue
+            r_ = deep_strip(p_.env.get(0))
+            d1 = term_contains_all(r_, lambda x: isinstance(x, tuple) and len(x) > 2 and x[0] == "adt" and isinstance(x[1], str) and x[1].endswith("ArrayDims::D1"))
+            w_ = deep_strip(d1[0][2][0]) if d1 and d1[0][2] else None
+            if not (isinstance(w_, tuple) and w_[0] == "call" and w_[1].endswith("::count")):
+                okw, detw = False, f"the width is {show(w_)[:120] if w_ else None}: not a count of the literal's characters that are '0' or '1' (separators must not be counted: \"0000_1111_0000\" is 12 bits wide)"
+                break
+            f_ = deep_strip(w_[2][0])
+            cl_ = [x for x in term_contains_all(f_, lambda x: isinstance(x, tuple) and len(x) > 1 and x[0] == "closure")]
+            chars_ = term_contains_all(f_, lambda x: isinstance(x, tuple) and len(x) > 2 and x[0] == "call" and isinstance(x[1], str) and x[1].endswith("str::chars"))
+            if not (f_[0] == "call" and f_[1].endswith("::filter") and len(cl_) == 1 and chars_):
+                okw, detw = False, f"the width is {show(w_)[:120]}: expected count(filter(chars(value), predicate))"
+                break
+            cls = _sc.predicate_class(prog, cl_[0][1], list(range(32, 127)), arg=2)
+            acc_ = sorted(chr(c) for c, v in cls.items() if v is True)
+            amb_ = [chr(c) for c, v in cls.items() if v == "?"]
+            okw = acc_ == ["0", "1"] and not amb_
+            detw = f"counted characters: {acc_}" + (f"; undecided {amb_[:4]}" if amb_ else "")
+        R.ob("C10.4-bitstring-width", "width counts exactly '0' and '1'", okw, bt.at, detw)
     else:
         R.ob("ANCHOR", "BitStringLiteral::to_texpr closure", False)
